@@ -5,6 +5,7 @@ import (
 	"bytes"
 	"encoding/asn1"
 	"fmt"
+	"math/big"
 	"math/rand"
 	"strings"
 
@@ -12,6 +13,7 @@ import (
 
 	"verif/harness/chipsim"
 	"verif/harness/core"
+	"verif/harness/perso"
 )
 
 func init() { Registry["C14"] = C14 }
@@ -137,8 +139,30 @@ func C14(c *core.Ctx) {
 		a, b  sessOutcome // two genuine sessions of the same passport
 		trust [][]byte
 		files map[uint16][]byte
+		p     *perso.Passport
+		only1 bool          // genuine-evidence matrix: export / offline comparison only
+		extra []sessOutcome // further genuine sessions (RSA: one whose signature plus the modulus keeps its length)
 	}
 	var lives []live
+	// (0) "evidence captured from a genuine session always verifies ... all curves and suites": every PACE-CAM curve
+	// and every CA curve at least twice (the shared secret's leading octets differ between sessions; P-521 more often)
+	for _, id := range []int{8, 9, 10, 11, 12, 13, 14, 15, 16, 17, 18} {
+		n := core.Pick(c, 2, 6)
+		if id == 18 {
+			n = core.Pick(c, 6, 16)
+		}
+		for k := 0; k < n; k++ {
+			v := randomVariety(c.Rand)
+			v.Transport = chipsim.Transport{ExtendedLength: true, AllowOversizeShortResponse: true, LengthErrorKeepsSession: true}
+			v.MaxLe, v.PaceParam, v.CaParam = 256, id, id
+			if k%2 == 0 {
+				lives = append(lives, live{m: mech{"PACE-CAM/matrix", sessCfg{"cam+bac", []int{}, "none", true, true, "genuine"}, sessOpt{false, false, []string{"mrz", "can"}[k/2%2]}}, v: v, only1: true})
+			} else {
+				v.CaOID = append([]string{""}, caOIDs...)[(id+k/2)%5]
+				lives = append(lives, live{m: mech{"CA/matrix", sessCfg{"bac", []int{}, "none", true, true, "genuine"}, sessOpt{false, false, "mrz"}}, v: v, only1: true})
+			}
+		}
+	}
 	for _, m := range mechs {
 		for k := 0; k < reps; k++ {
 			v := randomVariety(c.Rand)
@@ -166,6 +190,19 @@ func C14(c *core.Ctx) {
 		l.b = runSession(p, l.m.opt, l.v.MaxLe, nil, nil, l.v.Seed+1)
 		l.trust = p.Trust
 		l.files = p.AppFiles
+		l.p = p
+		if p.AAKey != nil && p.AAKey.Type == "rsa" && !l.only1 {
+			for k := int64(2); k < 14 && len(l.extra) == 0; k++ {
+				x := runSession(p, l.m.opt, l.v.MaxLe, nil, nil, l.v.Seed+k)
+				if x.err == "" && x.docEx != nil && x.docEx.Session.ActiveAuthResult != nil && x.docEx.Session.ActiveAuthResult.Evidence != nil {
+					sig := x.docEx.Session.ActiveAuthResult.Evidence.Signature
+					sum := new(big.Int).Add(new(big.Int).SetBytes(sig), new(big.Int).SetBytes(p.AAKey.N))
+					if len(sum.Bytes()) <= len(sig) {
+						l.extra = append(l.extra, x)
+					}
+				}
+			}
+		}
 	})
 	type tcase struct {
 		li          int
@@ -174,6 +211,7 @@ func C14(c *core.Ctx) {
 		build       func() (*document.DocumentEx, error)
 	}
 	var cases []tcase
+	rsaPlusN, rsaPlusNMissing := 0, 0
 	for li := range lives {
 		l := &lives[li]
 		name := fmt.Sprintf("%s [%s]", l.m.name, l.m.cfg)
@@ -201,6 +239,9 @@ func C14(c *core.Ctx) {
 		osum, lsum := off.docEx.Summary(), l.a.docEx.Summary()
 		if osum.DataTrusted != lsum.DataTrusted || osum.ChipAuthenticity != lsum.ChipAuthenticity {
 			c.Violation("C14:offline-summary-differs", fmt.Sprintf("live summary (%v,%s), offline (%v,%s) (%s)", lsum.DataTrusted, statusName(lsum.ChipAuthenticity), osum.DataTrusted, statusName(osum.ChipAuthenticity), name), nil)
+		}
+		if l.only1 {
+			continue
 		}
 		// (2) evidence fields
 		sa, sb := l.a.docEx.Session, l.b.docEx.Session
@@ -310,6 +351,58 @@ func C14(c *core.Ctx) {
 					}
 					return gg(s.ActiveAuthResult.Evidence)
 				})
+			}
+			// value-changing mutations that are congruent for the arithmetic of the scheme
+			if k := l.p.AAKey; k != nil && k.Type == "rsa" {
+				// S + N: the same residue, another value (RFC 8017 8.2.2 step 1 / 5.2.2: "signature representative out of range")
+				for _, x := range l.extra {
+					xs := x.docEx.Session
+					sig := xs.ActiveAuthResult.Evidence.Signature
+					sum := new(big.Int).Add(new(big.Int).SetBytes(sig), new(big.Int).SetBytes(k.N))
+					val := sum.FillBytes(make([]byte, len(sig)))
+					doc := x.docEx.Document
+					cases = append(cases, tcase{li, "aa", "signature", "rsa-plus-modulus", func() (*document.DocumentEx, error) {
+						d := &document.DocumentEx{Document: doc, Session: cloneSession(xs)}
+						d.Session.ActiveAuthResult.Evidence.Signature = val
+						return d, nil
+					}})
+				}
+				rsaPlusN++
+				if len(l.extra) == 0 {
+					rsaPlusNMissing++
+				}
+			} else if k != nil && k.Type == "ecdsa" {
+				sig := sa.ActiveAuthResult.Evidence.Signature
+				if curve, err := chipsim.CurveByParamID(k.ParamID); err == nil && len(sig)%2 == 0 && len(sig) > 0 && sig[0] != 0x30 {
+					h := len(sig) / 2
+					r, sv := new(big.Int).SetBytes(sig[:h]), new(big.Int).SetBytes(sig[h:])
+					// (r, n - s): the well-known second signature of the same message
+					neg := append(append([]byte{}, sig[:h]...), new(big.Int).Sub(curve.N, sv).FillBytes(make([]byte, h))...)
+					cases = append(cases, tcase{li, "aa", "signature", "ecdsa-negated-s", func() (*document.DocumentEx, error) {
+						d := &document.DocumentEx{Document: l.a.docEx.Document, Session: cloneSession(sa)}
+						d.Session.ActiveAuthResult.Evidence.Signature = neg
+						return d, nil
+					}})
+					// r + n, s + n where they keep their length: congruent, out of range
+					for which, x := range map[string]*big.Int{"r": r, "s": sv} {
+						y := new(big.Int).Add(x, curve.N)
+						if len(y.Bytes()) > h {
+							continue
+						}
+						val := append([]byte{}, sig...)
+						if which == "r" {
+							copy(val[:h], y.FillBytes(make([]byte, h)))
+						} else {
+							copy(val[h:], y.FillBytes(make([]byte, h)))
+						}
+						vv := val
+						cases = append(cases, tcase{li, "aa", "signature", "ecdsa-" + which + "-plus-order", func() (*document.DocumentEx, error) {
+							d := &document.DocumentEx{Document: l.a.docEx.Document, Session: cloneSession(sa)}
+							d.Session.ActiveAuthResult.Evidence.Signature = vv
+							return d, nil
+						}})
+					}
+				}
 			}
 			for _, oid := range [][]int{{1, 2, 840, 113549, 1, 1, 1}, {1, 2, 840, 10045, 2, 1}, {1, 2, 3, 4}} {
 				if asn1.ObjectIdentifier(oid).Equal(sa.ActiveAuthResult.Evidence.Algorithm) {
@@ -428,7 +521,10 @@ func C14(c *core.Ctx) {
 				}
 			}
 		}
-		if r.verdict == "ok" {
+		if r.verdict == "ok" && tc.kind == "ecdsa-negated-s" {
+			c.Violation("C14:aa-ecdsa-signature-negated-s-verifies", fmt.Sprintf("replacing the ECDSA Active Authentication signature (r, s) by (r, n - s) left the aa verdict positive (%s)", l.m.name),
+				map[string]any{"mechanism": tc.mechanism, "field": tc.field, "kind": tc.kind, "config": l.m.cfg})
+		} else if r.verdict == "ok" {
 			c.Violation(fmt.Sprintf("C14:%s-%s-tamper-undetected", tc.mechanism, tc.field), fmt.Sprintf("changing %s.%s (%s) left the %s verdict positive (%s)", tc.mechanism, tc.field, tc.kind, tc.mechanism, l.m.name),
 				map[string]any{"mechanism": tc.mechanism, "field": tc.field, "kind": tc.kind, "config": l.m.cfg, "variety": fmt.Sprintf("%+v", l.v)})
 		}
@@ -437,6 +533,8 @@ func C14(c *core.Ctx) {
 	c.Extra["live_sessions"] = len(lives)
 	c.Extra["tamper_cases"] = len(cases)
 	c.Extra["tamper_cases_not_representable"] = skipped
+	c.Extra["rsa_sessions_wanting_signature_plus_modulus"] = rsaPlusN
+	c.Extra["rsa_sessions_without_a_fitting_signature"] = rsaPlusNMissing
 	c.Sample(map[string]any{"mechanism": cases[0].mechanism, "field": cases[0].field, "mutation": cases[0].kind, "offline_verdict": results[0].verdict})
 	c.Sample(map[string]any{"mechanism": cases[len(cases)-1].mechanism, "field": cases[len(cases)-1].field, "mutation": cases[len(cases)-1].kind, "offline_verdict": results[len(cases)-1].verdict})
 }
